@@ -1592,7 +1592,10 @@ def tls_pushrec_oracle(kind, dump):
         return ("push of an in-domain TLS message (type %d) raised %s" % (kind, type(e).__name__), {"codec": "tls", "rule": "push_raise", "message": kind})
     TLS_DOMAIN["inside"] += 1
     r = Buffer(data=b.data + b"\xaa\xbb")
-    back = pull(r)
+    try:
+        back = pull(r)
+    except Exception as e:
+        return ("pull(push(message type %d)) raised %s" % (kind, type(e).__name__), {"codec": "tls", "rule": "roundtrip", "message": kind})
     if back != m or r.tell() != len(b.data):
         return ("pull(push(message type %d)) != message" % kind, {"codec": "tls", "rule": "roundtrip", "message": kind})
     return None
@@ -1626,7 +1629,10 @@ def tls_oracle(case):
         push(b2, m)
     except Exception:
         return None               # decoded values the encoder's API does not accept (None lists): out of the encoder's domain
-    m2 = pull(Buffer(data=b2.data))
+    try:
+        m2 = pull(Buffer(data=b2.data))
+    except Exception as e:
+        return ("re-encoded TLS message (type %d) does not decode: %s" % (kind, type(e).__name__), {"codec": "tls", "rule": "reencode", "message": kind})
     if m2 != m:
         return ("decoded TLS message (type %d) does not re-encode to the same value" % kind, {"codec": "tls", "rule": "reencode", "message": kind})
     return None
@@ -1639,9 +1645,13 @@ def tls_push_case(kind, m):
     b = Buffer(capacity=200000)
     push(b, m)
     r = Buffer(data=b.data)
-    back = pull(r)
     bad = None
-    if back != m or not r.eof():
+    try:
+        back = pull(r)
+    except Exception as e:
+        back = None
+        bad = ("pull(push(message type %d)) raised %s" % (kind, type(e).__name__), {"codec": "tls", "rule": "roundtrip", "message": kind})
+    if bad is None and (back != m or not r.eof()):
         bad = ("pull(push(message type %d)) != message" % kind, {"codec": "tls", "rule": "roundtrip", "message": kind})
     return {"s": "tls", "op": ["push", tls_tree(kind, m), kind, H(b.data)]}, bad
 
@@ -1698,6 +1708,14 @@ def tls_gen(ctx, rng, n):
     sh = bytes([2]) + (2 + 32 + 1 + 2 + 1 + 2 + 6).to_bytes(3, "big") + b"\x03\x03" + bytes(32) + b"\x00" + b"\x13\x01\x00" + b"\x00\x06" + b"\x00\x2b\x00\x00\x03\x04"
     cases.append({"s": "tls", "op": ["pull", 2, H(sh)]})
     cases.append({"s": "tls", "op": ["pull", 8, H(bytes([8]) + (2 + 6).to_bytes(3, "big") + b"\x00\x06" + b"\x00\x10\x00\x02\x00\x00")]})
+    from aioquic import tls as _tls
+    m = rand_msg(rng, 1)
+    m.pre_shared_key = _tls.OfferedPsks(identities=[(b"id", 7)], binders=[bytes(32)])
+    m.early_data = False
+    t = tls_tree(1, m)
+    exts = t[1][2][5][2]
+    exts += EXT(57, [Y(b"late")])        # an extension after pre_shared_key
+    cases.append({"s": "tls", "op": ["pull", 1, H(b"".join(tree_bytes(x) for x in t))]})
     m = rand_msg(rng, 1)
     m.server_name = "zzzz"
     ch = b"".join(tree_bytes(t) for t in tls_tree(1, m)).replace(b"zzzz", b"zz\xffz")
